@@ -324,3 +324,26 @@ def r03_8(ctx, rr):
         rr.ob(ok, key=key, sample={"fn": lb.key, "len": tshow(t), "cursor_fields_advanced_by_next": sorted(cursors)})
         if not ok:
             rr.violate(key, "%s must be `total - self.<cursor>` with the cursor that next() advances by one per item (%s); found %s" % (lb.key, sorted(cursors), tshow(t)), lb.span)
+
+
+@rule("R03.9", props=["C03", "C12"], floor=1, title="EliasFanoBuilder::build refuses a builder that has not received n values")
+def r03_9(ctx, rr):
+    """The selection structures attached by build_with_* assume that the high bits contain n ones; with fewer
+    values pushed, get(i) for i >= count scans past the end of the high bits. build must establish count == n."""
+    F = ctx.F()
+    b = F.one(r"^dict::elias_fano::EliasFanoBuilder::build$")
+    slf = ("var", "self", b.params[0]["id"])
+    lits = []
+
+    def on_node(W, n, K):
+        if n.get("k") == "Struct" and range_of(F, n) is None and any(f["name"] == "high_bits" for f in n["fields"]):
+            cnt, nn = ("field", slf, "count"), ("field", slf, "n")
+            lits.append((n, K.entails(atom_le(cnt, nn)) and K.entails(atom_le(nn, cnt))))
+    Walker(F, b, on_node=on_node).run()
+    if not lits:
+        raise AnchorMissing("EliasFanoBuilder::build: no EliasFano struct literal")
+    for n, ok in lits:
+        rr.instances += 1
+        rr.ob(ok, key="EliasFanoBuilder::build:all-values-pushed")
+        if not ok:
+            rr.violate("EliasFanoBuilder::build:all-values-pushed", "EliasFanoBuilder::build creates the structure without establishing `count == n`: with fewer than n values pushed the result claims n elements, and every access to an index >= count selects a one that does not exist (out-of-bounds scan of the high bits)", F.loc(n))
